@@ -42,7 +42,7 @@ var wanted = []string{
 	"deriveRFC6287", "validateRFC6287", "GenerateOCRA", "ValidateOCRA",
 	"DigitsFromStr", "AlgorithmFromStr",
 	"parseTimeGranularity", "parseCryptoFunction", "parseDataInputTokens", "parseRawSuite",
-	"NewRawSuite", "NewSuite", "IsKnownSuite", "SuiteConfigFromRaws",
+	"NewRawSuite", "NewSuite", "IsKnownSuite", "SuiteConfigFromRaws", "ListSuites",
 	"To8ByteBigEndian", "ParseDecimalToBigEndian8", "ParseDecimal64BigEndian", "LeftPadHex", "MustHexPadLeft",
 	"ParseHexTimestamp", "ParseDecimalChallengeRFC6287", "HexInputToOCRA", "RandomSecret",
 	"Algorithm.String", "generateOTPURL", "GenerateTOTPURL", "GenerateHOTPURL", "ParseOTPAuthURL",
